@@ -93,7 +93,7 @@ fn exec_line(line: &str) -> String {
         c10::exec(op, args)
     } else if op.starts_with("nz.") {
         nz::exec(op, args)
-    } else if op.starts_with("tz.") {
+    } else if op.starts_with("tz.") || op.starts_with("tzc02.") {
         tz::exec(op, args)
     } else if op.starts_with("sch.") {
         c14::exec(op, args)
@@ -136,6 +136,12 @@ fn main() {
                 "c15" => c15::gen(tier, &mut rng, &mut emit),
                 "cal" => cal::gen(tier, &mut rng, &mut emit),
                 "tz" => tz::gen(tier, &mut rng, &mut emit),
+                // C02 in zone contexts: the windows of the tz suite, judged by C02's own clauses on the localized stream
+                "tzc02" => tz::gen(tier, &mut rng, &mut |l: String| {
+                    if let Some(rest) = l.strip_prefix("tz.iter ") {
+                        emit(format!("tzc02.iter {rest}"));
+                    }
+                }),
                 "nz" => nz::gen(tier, &mut rng, &mut emit),
                 "c10" => c10::gen(tier, &mut rng, &mut emit),
                 "c18" => c18::gen(tier, &mut rng, &mut emit),
